@@ -77,3 +77,23 @@ func TestPartFileIsNotAnObject(t *testing.T) {
 		t.Errorf("GET %s: %d %q", key, r.Status, r.Body)
 	}
 }
+
+// Completing an upload for the key "dir" while the directory object "dir/" exists removed that other object (the move
+// into place unlinks whatever is at the target). PutObject answers 409 in the same situation.
+func TestCompletionDoesNotRemoveADirectoryObjectOfTheSameName(t *testing.T) {
+	g := gwtest.Start(t, gwtest.Options{})
+	g.MustStatus(g.Put(g.RootC, "/bkt", nil, nil), 200, "create bucket")
+	g.MustStatus(g.Put(g.RootC, "/bkt/dir/", nil, map[string]string{"X-Amz-Meta-Kind": "directory-object"}), 200, "put directory object dir/")
+	r := g.Post(g.RootC, "/bkt/dir?uploads", nil, nil)
+	g.MustStatus(r, 200, "initiate upload for the key dir")
+	id := string(r.Body)
+	id = id[strings.Index(id, "<UploadId>")+len("<UploadId>") : strings.Index(id, "</UploadId>")]
+	p := g.Put(g.RootC, "/bkt/dir?partNumber=1&uploadId="+id, []byte("part one"), nil)
+	g.MustStatus(p, 200, "upload part")
+	body := fmt.Sprintf(`<CompleteMultipartUpload><Part><PartNumber>1</PartNumber><ETag>%s</ETag></Part></CompleteMultipartUpload>`, p.Header.Get("Etag"))
+	c := g.Post(g.RootC, "/bkt/dir?uploadId="+id, []byte(body), nil)
+	h := g.Head(g.RootC, "/bkt/dir/")
+	if c.Status/100 == 2 || h.Status != 200 {
+		t.Errorf("CompleteMultipartUpload for the key dir answered %d; the directory object dir/ now answers %d to HEAD", c.Status, h.Status)
+	}
+}
